@@ -55,6 +55,33 @@ def run(ctx, obs):
     covariance_normaliser(ctx, obs)
     for fn in EVAL_FUNCS:
         parallel_accumulators(ctx, obs, EV + fn)
+    model_axis_of_crossval_result(ctx, obs)
+
+
+def model_axis_of_crossval_result(ctx, obs, rule='MODEL-AXIS'):
+    """`crossval(..).evaluations` is (1, models, folds).  A routine that stores it per model (one row of its own evaluations array per
+    resample) has to keep the model axis: an index expression with a CONSTANT at position 1 reads one model only, and assigning that
+    to a whole row broadcasts model 0's score to every model."""
+    prog = ctx.prog
+    n = 0
+    for q, f in sorted(prog.functions.items()):
+        if not (q.startswith('inference.boot_testset.') or q.startswith(EV)) or f.parent is not None:
+            continue
+        for e in ast.walk(f.node):
+            if not (isinstance(e, ast.Subscript) and isinstance(e.ctx, ast.Load) and isinstance(e.value, ast.Attribute) and e.value.attr == 'evaluations'
+                    and isinstance(e.value.value, ast.Call) and _leaf(e.value.value.func) == 'crossval'):
+                continue
+            items = list(e.slice.elts) if isinstance(e.slice, ast.Tuple) else [e.slice]
+            n += 1
+            con = 'the scores taken from crossval(..).evaluations keep the model axis'
+            if len(items) >= 2 and isinstance(items[1], ast.Constant) and isinstance(items[1].value, int):
+                obs.bad(rule, q, con, f'`{norm(e.slice)}` applied to the (1, models, folds) array selects model {items[1].value} only; stored into a row '
+                        f'with one entry per model it gives every model the score of model {items[1].value}', where(prog, f, e))
+            elif len(items) >= 2 and isinstance(items[1], ast.Slice):
+                obs.ok(rule, q, con, '', where(prog, f, e))
+            else:
+                obs.unk(rule, q, con, f'index `{norm(e.slice)}` not recognised', where(prog, f, e))
+    return n
 
 
 def parallel_accumulators(ctx, obs, q, rule='PAR-ACC'):
